@@ -27,9 +27,11 @@ Wire ==
   /\ (cfg.replyenc = "no" => Ev.replyclear)
   /\ (cfg.invoked <=> entered)
   /\ UNCHANGED <<cfg, entered>> /\ Step
-Known == {"Reset", "HEnter", "CallDone", "WireView", "CallHang", "SetupFailed"}
+\* concurrent exchanges on one session: every caller gets the result for its own argument, none fails (the keys are equal)
+Conc == Is("ConcDone") /\ cfg.conc /\ Ev.wrong = 0 /\ Ev.errs = 0 /\ Ev.ok = Ev.total /\ UNCHANGED <<cfg, entered>> /\ Step
+Known == {"Reset", "HEnter", "CallDone", "WireView", "CallHang", "SetupFailed", "ConcDone"}
 Skip == l <= N /\ Ev.ev \notin Known /\ UNCHANGED <<cfg, entered>> /\ Step
-Next == Reset \/ HEnter \/ CallDone \/ Wire \/ Skip
+Next == Reset \/ HEnter \/ CallDone \/ Wire \/ Conc \/ Skip
 Spec == Init /\ [][Next]_vars
 Accepted == PrintT(<<"HWM", TLCGet(1), N>>) /\ TRUE
 =============================================================================
